@@ -96,7 +96,7 @@ type sTask struct {
 	EnumKind   int  `json:"enum_kind,omitempty"`
 	CompileErr int  `json:"compile_err,omitempty"`
 	CompileSrc bool `json:"compile_src,omitempty"`
-	// Src (rendering only): the task has `sources:` and a `status:` command that always fails, so it is never up to date but
+	// Src (rendering only): the task has `sources:` and a `generates:` entry that never exists, so it is never up to date but
 	// goes through the fingerprinted path of RunTask (the sources checker records, a failing command takes the record back):
 	// a failing command of such a task must stop its callers exactly like any other
 	Src bool `json:"src,omitempty"`
@@ -380,7 +380,10 @@ func renderSched(d schedCase) (string, string) {
 			}
 		}
 		if t.Src && !t.UpToDate && t.CompileErr == 0 {
-			fmt.Fprintf(&b, "    sources: ['Taskfile.yml']\n    method: %s\n    status: ['exit 1']\n", []string{"checksum", "timestamp"}[i%2])
+			// never up to date through a `generates` entry that does not exist — NOT through a failing status command: a status
+			// command runs under the task's context, and a sibling's failure between depsDone and the guards then ends the
+			// activation with a context error for which the log has no event (one rejected log in 20 000 thorough cases)
+			fmt.Fprintf(&b, "    sources: ['Taskfile.yml']\n    generates: ['never-there-%d.out']\n    method: %s\n", i, []string{"checksum", "timestamp"}[i%2])
 		}
 		nameOf := func(callee, ref int, tpl bool, pos string) string {
 			if tpl {
